@@ -868,6 +868,12 @@ func (e *Exec) contractEnv(con *Contract, cur, old *State, args []Val) *SpecEnv 
 			env.vars[alias] = TV{args[j], con.ParamTypes[j]}
 		}
 	}
+	if con.IfaceRecvName != "" && len(args) > 0 && len(con.ParamTypes) > 0 {
+		// clauses inherited from the interface contract name the receiver as a value of the interface type
+		if _, taken := env.vars[con.IfaceRecvName]; !taken {
+			env.vars[con.IfaceRecvName] = TV{e.makeInterface(cur, con.ParamTypes[0], args[0]), con.IfaceRecvType}
+		}
+	}
 	return env
 }
 
